@@ -13,7 +13,7 @@ TRUSTED = (
 
 CLAIMS = {
     "C01": dict(
-        technique="static analysis: must-pass-through dataflow + reaching definitions over ast CFGs (validation dominates every slot append), guard-atom extraction compared with a spec table, Optional-guard dominance rule",
+        technique="static analysis: must-pass-through dataflow + reaching definitions over ast CFGs (validation dominates every slot append), guard-atom extraction compared with a spec table, Optional-guard dominance rule; formulas, guards and sibling code are matched as patterns over a symbolic normal form of the functions (global value numbering over the syntax tree: temporaries and private helpers inlined, canonical sums/comparisons, path conditions) -- no code is run, no solver is used",
         text=(
             "Decides the structural necessary conditions of 'every scheduled pulse is within the limits, and a pulse inside the limits is accepted': every path from a public Sequence method to a pulse-slot "
             "append passes validate_pulse/validate_duration and schedules the validation's result; every slots.append is dominated by the blocking sequence-duration check; the rejection atoms "
@@ -32,7 +32,7 @@ CLAIMS = {
         design_ref="DESIGN.md §4 C12",
     ),
     "C02": dict(
-        technique="static analysis: whole-program ownership scan of timeline write sites (append-only, who-may-write) + provenance (def-use) rules on slot construction",
+        technique="static analysis: whole-program ownership scan of timeline write sites (append-only, who-may-write) + provenance (def-use) rules on slot construction; formulas, guards and sibling code are matched as patterns over a symbolic normal form of the functions (global value numbering over the syntax tree: temporaries and private helpers inlined, canonical sums/comparisons, path conditions) -- no code is run, no solver is used",
         text=(
             "Decides the structural necessary conditions of 'slots tile the time axis and never move': the slot list is append-only program-wide and written only by the scheduler/Sequence, _TimeSlot is immutable, "
             "every new slot starts at the tf of the current last slot (provenance, not its ti, no arithmetic), ends at start + a channel-validated duration, the automatic delay equals slot.ti - last.tf and precedes the pulse, "
@@ -41,7 +41,7 @@ CLAIMS = {
         design_ref="DESIGN.md §4 C02",
     ),
     "C18": dict(
-        technique="static analysis: derived table of timing-relevant channel fields (attribute-read closure from the scheduler through properties/methods) compared with the fields checked under strict; effect rule on the switch helpers",
+        technique="static analysis: derived table of timing-relevant channel fields (attribute-read closure from the scheduler through properties/methods) compared with the fields checked under strict; effect rule on the switch helpers; formulas, guards and sibling code are matched as patterns over a symbolic normal form of the functions (global value numbering over the syntax tree: temporaries and private helpers inlined, canonical sums/comparisons, path conditions) -- no code is run, no solver is used",
         text=(
             "Decides the structural necessary condition of 'strict switching returns an identical timeline or raises': every Channel/EOM field the scheduler reads outside pure rejection guards (derived on each run: "
             "mod_bandwidth, clock_period, min_duration, custom_phase_jump_time, retarget times, EOM buffer/bandwidth) is compared under strict=True (directly or via a compared property) or a whole-timeline "
@@ -51,7 +51,7 @@ CLAIMS = {
         design_ref="DESIGN.md §4 C18",
     ),
     "C19": dict(
-        technique="static analysis: attribute-level taint (def-use closure over the CoordsCollection property family) with the sorting-order indexing as sanitiser; pairing and table rules",
+        technique="static analysis: attribute-level taint (def-use closure over the CoordsCollection property family) with the sorting-order indexing as sanitiser; pairing and table rules; formulas, guards and sibling code are matched as patterns over a symbolic normal form of the functions (global value numbering over the syntax tree: temporaries and private helpers inlined, canonical sums/comparisons, path conditions) -- no code is run, no solver is used",
         text=(
             "Decides the structural necessary condition of 'trap numbering, equality and hash do not depend on the order coordinates were given': order-dependent attributes reach hash/eq/trap-id/abstract-repr sinks only "
             "through indexing with _calc_sorting_order(); coordinates and weights are always used in the same (canonical or raw) order; the sort is x-primary over rounded coordinates; all roundings use COORD_PRECISION; "
@@ -60,7 +60,7 @@ CLAIMS = {
         design_ref="DESIGN.md §4 C19",
     ),
     "C03": dict(
-        technique="static analysis: sibling agreement of argument provenance (estimate vs add), guard/table rules on protocol dispatch, def-use provenance of conflict delays and of the alignment delay",
+        technique="static analysis: sibling agreement of argument provenance (estimate vs add), guard/table rules on protocol dispatch, def-use provenance of conflict delays and of the alignment delay; formulas, guards and sibling code are matched as patterns over a symbolic normal form of the functions (global value numbering over the syntax tree: temporaries and private helpers inlined, canonical sums/comparisons, path conditions) -- no code is run, no solver is used",
         text=(
             "Decides the structural necessary conditions of 'estimate equals inserted delay', 'conflicts wait for the other pulse's fall time' and 'align ends together': estimate_added_delay and _add reach the same slot constructor "
             "with identical argument provenance; the conflict scan runs iff protocol != 'no-delay', conflicts are overlap-or-wait-for-all, every use of another channel's end adds its fall time (2*rise_time for non-pulses), "
@@ -69,7 +69,7 @@ CLAIMS = {
         design_ref="DESIGN.md §4 C03",
     ),
     "C07": dict(
-        technique="static analysis: def-use provenance (FLOW) and pass-through rules over the phase-reference bookkeeping",
+        technique="static analysis: def-use provenance (FLOW) and pass-through rules over the phase-reference bookkeeping; formulas, guards and sibling code are matched as patterns over a symbolic normal form of the functions (global value numbering over the syntax tree: temporaries and private helpers inlined, canonical sums/comparisons, path conditions) -- no code is run, no solver is used",
         text=(
             "Decides the structural necessary conditions of additive, always-applied phase references: stored phases pass `% 2*pi` at every write site, increments are last_phase + phi at last_used, the phase reference of the "
             "targets reaches the scheduled pulse additively, phase barriers come from last_time of the targets, last_used and post-phase-shifts are applied to the same targets and basis after the add, multi-reference targets are rejected. "
@@ -78,7 +78,7 @@ CLAIMS = {
         design_ref="DESIGN.md §4 C07",
     ),
     "C08": dict(
-        technique="static analysis: write-effect summary of build (template untouched, replay on fresh object), structural FLOW rules on argument building and cache invalidation pairing",
+        technique="static analysis: write-effect summary of build (template untouched, replay on fresh object), structural FLOW rules on argument building and cache invalidation pairing; formulas, guards and sibling code are matched as patterns over a symbolic normal form of the functions (global value numbering over the syntax tree: temporaries and private helpers inlined, canonical sums/comparisons, path conditions) -- no code is run, no solver is used",
         text=(
             "Decides the structural necessary conditions of 'build equals direct construction and never alters the template': build's non-fresh write summary is only Variable.value/_count, replay receivers are fresh objects, "
             "all args and kwargs (and ParamObj's own args/kwargs/cls) pass .build() when Parametrized and those built values are what is replayed, in call order; every write of Variable.value bumps _count and ParamObj's cache is keyed on all counters; "
@@ -87,7 +87,7 @@ CLAIMS = {
         design_ref="DESIGN.md §4 C08",
     ),
     "C10": dict(
-        technique="static analysis: def-use provenance and enclosing-condition extraction for the phase-jump buffer and the retarget duration",
+        technique="static analysis: def-use provenance and enclosing-condition extraction for the phase-jump buffer and the retarget duration; formulas, guards and sibling code are matched as patterns over a symbolic normal form of the functions (global value numbering over the syntax tree: temporaries and private helpers inlined, canonical sums/comparisons, path conditions) -- no code is run, no solver is used",
         text=(
             "Decides that the required sources flow into the inserted delays: phase_jump_time, 2*rise_time in EOM mode, the previous pulse's fall time and the elapsed time into the phase-jump buffer (only when the phase changes and "
             "the protocol is not 'no-delay', combined by max with the conflict delay); min_retarget_interval, last target time and fixed_retarget_t into the retarget duration (through adjust_duration), after waiting for the fall time, "
@@ -96,7 +96,7 @@ CLAIMS = {
         design_ref="DESIGN.md §4 C10",
     ),
     "C15": dict(
-        technique="static analysis: def-use provenance of EOM setpoints and buffers; index-agreement rule in calculate_detuning_off",
+        technique="static analysis: def-use provenance of EOM setpoints and buffers; index-agreement rule in calculate_detuning_off; formulas, guards and sibling code are matched as patterns over a symbolic normal form of the functions (global value numbering over the syntax tree: temporaries and private helpers inlined, canonical sums/comparisons, path conditions) -- no code is run, no solver is used",
         text=(
             "Decides the structural necessary conditions of 'EOM pulses use the chosen setpoint, idle at the off-detuning, are buffered': pulse amplitude/detuning come from the open block's rabi_freq/detuning_on, detuned delays and the buffer "
             "from its detuning_off, _EOMSettings slots are filled from the matching arguments, detuning_off = options[argmin|options-optimum|] with the switching beams picked by the same index over the same combos list, buffers are "
@@ -105,7 +105,7 @@ CLAIMS = {
         design_ref="DESIGN.md §4 C15",
     ),
     "C04": dict(
-        technique="static analysis: multi-way table agreement (abstract interpretation of serializer branches, deserializer branch keys/defaults, JSON-schema definitions, method signatures, operator tables), all extracted from source on every run",
+        technique="static analysis: multi-way table agreement (abstract interpretation of serializer branches, deserializer branch keys/defaults, JSON-schema definitions, method signatures, operator tables), all extracted from source on every run; positional-index rule over the path conditions of the symbolic normal form (recorded call arguments)",
         text=(
             "Decides writer/reader/schema agreement, the structural necessary condition of the round-trip: every recordable call has a serializer branch; the 13 ops and 9 waveform kinds agree on the three "
             "sides in key sets, required/optional split and elided defaults (vs. the Sequence method signatures); positional renderings match the parameter lists; every expression an OpSupport method can "
@@ -115,7 +115,7 @@ CLAIMS = {
         design_ref="DESIGN.md §4 C04",
     ),
     "C17": dict(
-        technique="static analysis: table agreement between dataclass fields, optional-field tables, deserializer key reads and JSON schemas; schema well-formedness walk; whole-program scan for class-level shared state",
+        technique="static analysis: table agreement between dataclass fields, optional-field tables, deserializer key reads and JSON schemas; schema well-formedness walk; whole-program scan for class-level shared state; formulas, guards and sibling code are matched as patterns over a symbolic normal form of the functions (global value numbering over the syntax tree: temporaries and private helpers inlined, canonical sums/comparisons, path conditions) -- no code is run, no solver is used",
         text=(
             "Decides the structural necessary conditions of the round-trip for devices, channels, EOM, noise models, observables and results: declared fields = emitted keys = schema properties, "
             "required = always emitted, every elidable field has a default, decoder tables (basis->class, observable tag->class) agree with the writers, NoiseModel parameter tables partition the fields, "
@@ -125,7 +125,7 @@ CLAIMS = {
         design_ref="DESIGN.md §4 C17",
     ),
     "C05": dict(
-        technique="static analysis (narrow): table agreement between state-order tables, operator labels and the documented convention; structural coefficient factorisation; mode-selection guards",
+        technique="static analysis (narrow): table agreement between state-order tables, operator labels and the documented convention; structural coefficient factorisation; mode-selection guards; formulas, guards and sibling code are matched as patterns over a symbolic normal form of the functions (global value numbering over the syntax tree: temporaries and private helpers inlined, canonical sums/comparisons, path conditions) -- no code is run, no solver is used",
         text=(
             "Decides only structural necessary conditions of the Hamiltonian formula: the state order (STATES_RANK/EIGENSTATES) agrees with the documented vector convention and with the drive operator labels "
             "(sigma_ba for the drive, sigma_aa for the detuning), operators are placed at the register index, the Hamiltonian is symmetrised exactly once and Hermitian terms carry 1/2 (amp: 0.5*amp*exp(-i*phase); det: -0.5*det; "
@@ -135,7 +135,7 @@ CLAIMS = {
         design_ref="DESIGN.md §4 C05",
     ),
     "C06": dict(
-        technique="static analysis (narrow): sibling-statement agreement (amp/det/phase index ranges), padding modes, mode guards, emptiness-belief contradiction (Engler-style) in the sampling functions",
+        technique="static analysis (narrow): sibling-statement agreement (amp/det/phase index ranges), padding modes, mode guards, emptiness-belief contradiction (Engler-style) in the sampling functions; formulas, guards and sibling code are matched as patterns over a symbolic normal form of the functions (global value numbering over the syntax tree: temporaries and private helpers inlined, canonical sums/comparisons, path conditions) -- no code is run, no solver is used",
         text=(
             "Decides that amplitude, detuning and phase are accumulated over identical index ranges from the matching sources (schedule -> channel samples -> per-atom dict), that the DMM weight multiplies only the per-atom detuning, "
             "that duration extension pads at the end (zeros / EOM off-detuning iff the block is open / last phase), that SLM offsets apply only in XY, and that no possibly-empty slot list is indexed with a constant unguarded. "
@@ -144,7 +144,7 @@ CLAIMS = {
         design_ref="DESIGN.md §4 C06",
     ),
     "C11": dict(
-        technique="static analysis (narrow): annotation-driven array-vs-string comparison rule; measurement-convention table agreement (code vs documented SPAM table); sibling agreement of the two detection-error samplers",
+        technique="static analysis (narrow): annotation-driven array-vs-string comparison rule; measurement-convention table agreement (code vs documented SPAM table); sibling agreement of the two detection-error samplers; formulas, guards and sibling code are matched as patterns over a symbolic normal form of the functions (global value numbering over the syntax tree: temporaries and private helpers inlined, canonical sums/comparisons, path conditions) -- no code is run, no solver is used",
         text=(
             "Decides: no value declared as 'array or mode string' is compared to a string literal in a truth context without isinstance(_, str) (otherwise re-creating a config with several evaluation times raises); the state read as 1 "
             "per basis agrees between QutipResult._weights, State.infer_one_state, EIGENSTATES and the documented table, with the ground-rydberg order reversed exactly once; both samplers flip 1s with the false-negative and 0s with the "
@@ -162,7 +162,7 @@ CLAIMS = {
         design_ref="DESIGN.md §4 C16",
     ),
     "C20": dict(
-        technique="static analysis (narrow): symbolic truth table of the observable storing condition; literal-dimension rule; sibling agreement of energy moments; result-store guards",
+        technique="static analysis (narrow): symbolic truth table of the observable storing condition; literal-dimension rule; sibling agreement of energy moments; result-store guards; formulas, guards and sibling code are matched as patterns over a symbolic normal form of the functions (global value numbering over the syntax tree: temporaries and private helpers inlined, canonical sums/comparisons, path conditions) -- no code is run, no solver is used",
         text=(
             "Decides: Observable.__call__ stores iff (own times and t in own) or (no own times and t in default) -- all 6 rows of the truth table; the stochastic branch of the V2 backend sizes its accumulator from the emulator's "
             "dimension (no literal 2x2); both branches call observables uniformly; Results rejects repeated times and requires ascending times; the variance is the second-moment expression minus the squared mean. "
@@ -181,7 +181,7 @@ CLAIMS = {
         design_ref="DESIGN.md §4 C09",
     ),
     "C13": dict(
-        technique="static analysis: interprocedural must-pass-through (typestate guard) dataflow over ast CFGs; instances derived from write-effect summaries",
+        technique="static analysis: interprocedural must-pass-through (typestate guard) dataflow over ast CFGs; instances derived from write-effect summaries; formulas, guards and sibling code are matched as patterns over a symbolic normal form of the functions (global value numbering over the syntax tree: temporaries and private helpers inlined, canonical sums/comparisons, path conditions) -- no code is run, no solver is used",
         text=(
             "Decides that the guards implementing the documented typestate are in place on every path: each public Sequence method whose write summary touches the timeline passes the "
             "measured rejection before its first timeline write (instances are derived from the effect analysis, so a new timeline-writing method is an instance automatically); "
